@@ -22,7 +22,7 @@ RULE = ("Hypothesis: general graphs (IRI instances; blank nodes only for channel
         "language-tagged literals whose contents include '@', '%', quotes and '^^' x 6 switches x threshold; per graph 4 drawn delivery "
         "channels out of: format {nt, tsv_spo, turtle, turtle_iter, xml, json-ld, n3} x {raw string, file, list of 1-4 files, file:// "
         "URL, list of URLs, rdflib Graph object} x compression {none, gz, xz, zip with 1-3 members, list of zips} x a drawn partition "
-        "of the triples.  Oracle: canonical document == canonical document of the raw N-Triples run (C09 comparison incl. tie "
+        "of the triples x prefixes declared by the document (incl. '' and prefixes that clash with the user's namespaces_dict).  Oracle: canonical document == canonical document of the raw N-Triples run (C09 comparison incl. tie "
         "detector).  An evaluation is one graph with all its channels.  Non-trivial: a channel with >=2 files or compression or a "
         "non-NT syntax on a graph with a language-tagged or typed literal; distinct by SHA-1 of the case.")
 ASSUMPTIONS = c01.ASSUMPTIONS + ["rdflib 6.0.2 serialisers (xml, json-ld) produce the documents for those syntaxes", "URL channels use file:// URLs (no network)"]
@@ -50,7 +50,8 @@ def channel(draw, has_bnodes):
                                                ("turtle_iter", "raw", None)]))
     parts = draw(st.integers(1, 4)) if how in ("files", "urls") or comp == "zip" else 1
     assign = draw(st.lists(st.integers(0, 3), min_size=1, max_size=12))
-    return {"fmt": fmt, "how": how, "comp": comp, "parts": parts, "assign": assign, "zips": draw(st.integers(1, 2))}
+    return {"fmt": fmt, "how": how, "comp": comp, "parts": parts, "assign": assign, "zips": draw(st.integers(1, 2)),
+            "pfx": draw(st.integers(0, 3))}
 
 
 @st.composite
@@ -69,6 +70,9 @@ def cases(draw):
     cfg["instances_report_mode"] = "mixed"
     has_b = any(t[0][0] == "bnode" or t[2][0] == "bnode" for t in g["triples"])
     chans = draw(st.lists(channel(has_b), min_size=4, max_size=4))
+    nsd = draw(st.sampled_from(NS_DICTS))
+    if nsd is not None:
+        cfg["namespaces_dict"] = nsd
     return {"g": g, "cfg": cfg, "target": {"mode": "all"}, "thr": draw(st.sampled_from([0, 0, 0.5, 1 / 3, 1])), "channels": chans}
 
 
@@ -80,14 +84,21 @@ selftest = c01.selftest
 EXT = {"nt": "nt", "tsv_spo": "tsv", "turtle": "ttl", "turtle_iter": "ttl", "n3": "n3", "xml": "xml", "json-ld": "json"}
 
 
-def content(fmt, triples):
+TTL_PREFIXES = [{"ex": "http://ex.org/", "xsd": "http://www.w3.org/2001/XMLSchema#"}, {"": "http://ex.org/"},
+                {"ex": "http://ex.org/ns/", "weso-s": "http://ex.org/"}, {"shapes": "http://other.org/v#", "": "http://ex.org/ns/"}]
+NS_DICTS = [None, None, {"http://other.org/v#": "ex"}, {"http://ex.org/ns/": "", "http://ex.org/": "weso-s"}]
+
+
+def content(fmt, triples, pfx=0):
     if fmt == "nt":
         return to_nt(triples)
     if fmt == "tsv_spo":
         return to_tsv(triples)
     if fmt in ("turtle", "turtle_iter", "n3"):
-        return to_simple_turtle(triples, {"ex": "http://ex.org/", "xsd": "http://www.w3.org/2001/XMLSchema#"})
+        return to_simple_turtle(triples, TTL_PREFIXES[pfx % len(TTL_PREFIXES)])
     g = to_rdflib(triples)
+    for k, v in TTL_PREFIXES[pfx % len(TTL_PREFIXES)].items():
+        g.bind(k, v)        # the serialised document declares these prefixes too
     return g.serialize(format="xml" if fmt == "xml" else "json-ld")
 
 
@@ -117,11 +128,13 @@ def channel_kwargs(ch, triples, d, idx):
     kw = {}
     if how == "rdflib":
         kw["rdflib_graph"] = to_rdflib(triples)
+        for k, v in TTL_PREFIXES[ch.get("pfx", 0) % len(TTL_PREFIXES)].items():
+            kw["rdflib_graph"].bind(k, v)
         return kw
     kw["input_format"] = fmt
     ext = EXT[fmt]
     if how == "raw":
-        kw["raw_graph"] = content(fmt, triples)
+        kw["raw_graph"] = content(fmt, triples, ch.get("pfx", 0))
         return kw
     parts = split(triples, ch) if (how in ("files", "urls") or comp == "zip") else [list(triples)]
     if comp == "zip":
@@ -133,7 +146,7 @@ def channel_kwargs(ch, triples, d, idx):
             with zipfile.ZipFile(zp, "w") as zf:
                 for j, p in enumerate(parts):
                     if j % nz == z:
-                        zf.writestr("m%d.%s" % (j, ext), content(fmt, p))
+                        zf.writestr("m%d.%s" % (j, ext), content(fmt, p, ch.get("pfx", 0)))
                 if not zf.namelist():
                     zf.writestr("empty.%s" % ext, content(fmt, []) if fmt not in ("xml", "json-ld") else content(fmt, parts[0][:0]))
             zips.append(zp)
@@ -145,7 +158,7 @@ def channel_kwargs(ch, triples, d, idx):
     paths = []
     for j, p in enumerate(parts):
         path = os.path.join(d, "c%d_p%d.%s%s" % (idx, j, ext, {"gz": ".gz", "xz": ".xz"}.get(comp, "")))
-        write(path, content(fmt, p), comp)
+        write(path, content(fmt, p, ch.get("pfx", 0)), comp)
         paths.append(path)
     if comp:
         kw["compression_mode"] = comp
@@ -183,6 +196,8 @@ def check(case):
     with sut.tmpdir() as d:
         for idx, ch in enumerate(case["channels"]):
             ckw = dict(base)
+            if "namespaces_dict" in ckw:
+                ckw["namespaces_dict"] = dict(ckw["namespaces_dict"])
             try:
                 ckw.update(channel_kwargs(ch, triples, d, idx))
             except Exception as e:      # rdflib cannot serialise this graph in that syntax: generator-side limitation
